@@ -46,6 +46,7 @@ def jobs(tier):
             out.append({"name": "%s/%s" % (sh, leaf), "shape": sh, "leaf": leaf, "depth": b["depth"], "tier": tier})
     out.append({"name": "env-built", "kind": "envbuilt"})
     out.append({"name": "include-load", "kind": "include", "tier": tier})
+    out.append({"name": "storage-hooks", "kind": "hooks"})
     return out
 
 
@@ -350,6 +351,68 @@ def _envbuilt(job, ctx):
     ctx.sample({"env_built": list(ENV_KINDS)})
 
 
+def _storage_hooks(job, ctx):
+    """fields whose documented storage hook (`__setval__`) refuses a value that passed validation: the assignment is rejected,
+    so the field keeps its value and its not-user-defined status (fresh, after a reset, in a sub-configuration, by every route)"""
+    import cincoconfig as cc
+    only = job.get("only")
+
+    class GrowOnly(cc.IntField):
+        def __setval__(self, cfg, value):
+            if value is not None and value < (cfg._data.get(self._key) or 0):
+                raise ValueError("the counter only grows")
+            super().__setval__(cfg, value)
+
+    for state in ("fresh", "after-reset", "assigned"):
+        for route in ("attr", "dotted", "item", "load_tree", "ctor-sub-map"):
+            ident = [state, route]
+            if only is not None and only != ident:
+                continue
+            s = cc.Schema()
+            s.n = GrowOnly(default=10)
+            s.w = cc.IntField(default=0)
+            s.sub.n = GrowOnly(default=20)
+            cfg = s()
+            if state == "after-reset":
+                cfg.n = 30; cfg.sub.n = 40
+                cc.reset_value(cfg, "n"); cc.reset_value(cfg.sub, "n")
+            elif state == "assigned":
+                cfg.n = 30; cfg.sub.n = 40
+            want_defined = state == "assigned"
+            want = (30, 40) if state == "assigned" else (10, 20)
+            ctx.transitions += 1
+            try:
+                if route == "attr":
+                    cfg.n = 1
+                elif route == "dotted":
+                    cfg["sub.n"] = 1
+                elif route == "item":
+                    cfg["n"] = 1
+                elif route == "load_tree":
+                    cfg.load_tree({"n": 1})
+                else:
+                    cfg.sub = {"n": 1}
+                raised = False
+            except Exception:  # noqa
+                raised = True
+            ctx.case(("hooks", state, route), "hooks:%s" % ("rejected" if raised else "accepted"), True)
+            case = {"kind": "hooks", "jobparams_full": {k: v for k, v in job.items() if k not in ("single", "only")}, "only": ident, "job": job["name"]}
+            fp = "C12|storage-hooks|%s|%s|" % (state, route)
+            if not raised:
+                ctx.violation(fp + "accepted", "the storage hook refused the value, the operation returned normally", case)
+                continue
+            if route == "ctor-sub-map":
+                continue        # (a map assigned to a section builds a new sub-configuration: judged by C06)
+            got = (cfg.n, cfg.sub.n)
+            defined = (cc.is_value_defined(cfg, "n"), cc.is_value_defined(cfg.sub, "n"))
+            if got != want:
+                ctx.violation(fp + "value", "after the rejected assignment the fields read %r, expected %r" % (got, want), case)
+            if defined != (want_defined, want_defined):
+                ctx.violation(fp + "mark", "after the rejected assignment the user-defined status is %r, expected %r" % (defined, (want_defined, want_defined)), case)
+    ctx.states += 1
+    ctx.traces += 1
+
+
 INC_LEAVES = ["a", "sub.c", "sub.w2", "sub.deep.e"]
 
 
@@ -445,6 +508,11 @@ def _include_load(job, ctx):
 
 def run_job(job, ctx):
     single = job.get("single")
+    if single and single.get("kind") == "hooks":
+        j = dict(single["jobparams_full"]); j["only"] = single["only"]
+        return _storage_hooks(j, ctx)
+    if job.get("kind") == "hooks":
+        return _storage_hooks(job, ctx)
     if single and single.get("kind") == "include":
         j = dict(single["jobparams_full"]); j["only"] = single["only"]
         return _include_load(j, ctx)
